@@ -290,7 +290,7 @@ def c15_r2_units(ctx, rule="C15.R2"):
             continue
         e = b.expr_of_operand(t["discr"])
         sh = q.shape(e, roles)
-        if "upvar:col" in sh:
+        if "^arg3" in sh:
             for x in e.walk():
                 if isinstance(x, Var) and not x.is_arg and x.ty in ("usize", "u64"):
                     u16.add(x.local)
@@ -306,10 +306,10 @@ def c15_r2_units(ctx, rule="C15.R2"):
         t = b.blocks[d]["term"]
         if t["k"] == "switch":
             sh = q.shape(b.expr_of_operand(t["discr"]), roles)
-            if "upvar:col" in sh:
+            if "^arg3" in sh:
                 cmps.add(sh)
-    want_col = [s for s in cmps if q.wild("Le(cast<usize>(upvar:col),U)", s)]
-    want_end = [s for s in cmps if q.wild("L?(*Add(from<u64>(upvar:col),from<u64>(upvar:span))*", s.replace("Lt", "L?").replace("Le", "L?"))]
+    want_col = [s for s in cmps if q.wild("Le(cast<usize>(^arg3),U)", s)]
+    want_end = [s for s in cmps if q.wild("L?(*Add(from<u64>(^arg3),from<u64>(^arg4))*", s.replace("Lt", "L?").replace("Le", "L?"))]
     ctx.check(bool(want_col), rule, fn, "cmp:col", "the prefix walk stops when the UTF-16 counter reaches col", detail=str(sorted(cmps)))
     ctx.check(len(want_end) >= 2, rule, fn, "cmp:col+span", "the span walk and the final length test compare the UTF-16 counter with col + span computed without overflow", detail=str(sorted(cmps)))
 
